@@ -327,7 +327,7 @@ impl Env {
 fn rand_cfg(r: &mut SmallRng, opts: &RndOpts) -> Cfg {
     let mut c = Cfg::default();
     c.fanout = pick(r, &[1usize, 2, 3]);
-    c.maxtx = pick(r, &[1u8, 2, 3, 10]);
+    c.maxtx = pick(r, &[1u8, 2, 3, 10, 255]);
     c.maxpkt = pick(r, &[1400usize, 1400, 64, 40, 30, 24, 18, 12]);
     c.notifydown = r.random_range(0..2) == 0;
     c.s2d = 3000;
